@@ -204,23 +204,36 @@ impl<'m> VConv<'m> {
                 }
                 node("op", v)
             }
-            ir::Expression::Call(id, ir::CallType::FreeFunction, args) => {
+            ir::Expression::MemberVariable(sid, index) => {
+                // a data member of the object a method runs on
+                hist.add("ir:MemberVariable");
+                self.structs.insert(sid.0);
+                node("this", vec![a(&sid.0.to_string()), a(&index.to_string())])
+            }
+            ir::Expression::Call(id, ct, args) => {
                 let fr = &self.m.function_registry;
                 if fr.get_intrinsic_data(*id).is_some() {
                     return unsup("CallIntrinsic");
                 }
-                if fr.get_template_instantiation_data(*id).is_some() {
-                    return unsup("CallTemplate");
-                }
                 if fr.get_function_implementation(*id).is_none() {
                     return unsup("CallNoBody");
                 }
-                hist.add("ir:Call");
+                if fr.get_template_instantiation_data(*id).is_some() {
+                    hist.add("ir:CallTemplateInstance");
+                }
+                let head = match ct {
+                    ir::CallType::FreeFunction => "call",
+                    // first argument = the object
+                    ir::CallType::MethodExternal => "mcall",
+                    // a method called from a method of the same object
+                    ir::CallType::MethodInternal => "icall",
+                };
+                hist.add(&format!("ir:{}", head));
                 let mut v = vec![a(&id.0.to_string())];
                 for x in args {
                     v.push(self.expr(x, hist));
                 }
-                node("call", v)
+                node(head, v)
             }
             other => {
                 let d = format!("{:?}", other);
@@ -363,7 +376,9 @@ impl<'m> VConv<'m> {
         }
         let body = self.block(&imp.scope_block, hist);
         let mut items = vec![a(&id.0.to_string()), ret, node("params", ps), body];
-        if !imp.attributes.is_empty() || !sig.template_params.is_empty() {
+        // an instantiation of a function template is a function of its own (its template parameters are resolved)
+        let is_instance = fr.get_template_instantiation_data(id).is_some();
+        if !imp.attributes.is_empty() || (!sig.template_params.is_empty() && !is_instance) {
             items.push(unsup("FunctionAttribute"));
         }
         Some(node("fn", items))
@@ -379,8 +394,8 @@ impl<'m> VConv<'m> {
                 v.push(self.ty(mem.type_id));
             }
         }
-        if !sd.methods.is_empty() {
-            v.push(unsup("StructMethods"));
+        for mid in &sd.methods {
+            v.push(node("method", vec![a(&mid.0.to_string())]));
         }
         node("struct", v)
     }
@@ -448,19 +463,31 @@ pub fn is_numeric_type_name(s: &str) -> bool {
 pub struct TConv {
     /// names of the structs and enums the module declares (needed to choose among ambiguous parse branches)
     pub type_names: Vec<String>,
+    /// function templates all of whose parameters are unnamed: `template<typename> int f_0(int x)`
+    pub unnamed_templates: Vec<String>,
+}
+
+fn unnamed_params(f: &ast::FunctionDefinition) -> bool {
+    !f.template_params.0.is_empty()
+        && f.template_params.0.iter().all(|p| match p {
+            ast::TemplateParam::Type(t) => t.name.is_none() && t.default.is_none(),
+            ast::TemplateParam::Value(v) => v.name.is_none() && v.default.is_none(),
+        })
 }
 
 impl TConv {
     pub fn new(m: &ast::Module) -> Self {
         let mut type_names = Vec::new();
+        let mut unnamed_templates = Vec::new();
         for rd in &m.root_definitions {
             match rd {
                 ast::RootDefinition::Struct(s) => type_names.push(s.name.node.clone()),
                 ast::RootDefinition::Enum(e) => type_names.push(e.name.node.clone()),
+                ast::RootDefinition::Function(f) if unnamed_params(f) => unnamed_templates.push(f.name.node.clone()),
                 _ => {}
             }
         }
-        TConv { type_names }
+        TConv { type_names, unnamed_templates }
     }
 
     fn is_type_name(&self, s: &str) -> bool {
@@ -534,7 +561,9 @@ impl TConv {
                 }
             }
             ast::Expression::Call(f, targs, args) => {
-                if !targs.is_empty() {
+                // explicit template arguments: only for calls of functions whose template parameters are unnamed (unused),
+                // which is how the exporter emits instantiations; `func` below refuses named parameters
+                if !targs.is_empty() && !matches!(&f.node, ast::Expression::Identifier(id) if ident(id).map(|n| self.unnamed_templates.contains(&n)).unwrap_or(false)) {
                     return unsup("TemplateArgs");
                 }
                 match &f.node {
@@ -543,6 +572,15 @@ impl TConv {
                             let mut v = vec![a(&n)];
                             v.extend(args.iter().map(|x| self.expr(&x.node)));
                             node("call", v)
+                        }
+                        None => unsup("CallTarget"),
+                    },
+                    // `object.method(args)`
+                    ast::Expression::Member(obj, name) if name.identifiers.len() == 1 => match ident(name) {
+                        Some(n) => {
+                            let mut v = vec![self.expr(&obj.node), a(&n)];
+                            v.extend(args.iter().map(|x| self.expr(&x.node)));
+                            node("mcall", v)
                         }
                         None => unsup("CallTarget"),
                     },
@@ -693,7 +731,7 @@ impl TConv {
             None => unsup("NoBody"),
         };
         let mut items = vec![a(&f.name.node), ret, node("params", ps), body];
-        if !f.attributes.is_empty() || !f.template_params.0.is_empty() {
+        if !f.attributes.is_empty() || (!f.template_params.0.is_empty() && !unnamed_params(f)) {
             items.push(unsup("FunctionAttribute"));
         }
         node("fn", items)
@@ -724,6 +762,7 @@ impl TConv {
                                 }
                                 _ => v.push(unsup("StructMemberType")),
                             },
+                            ast::StructEntry::Method(fd) => v.push(node("method", vec![self.func(fd)])),
                             _ => v.push(unsup("StructEntry")),
                         }
                     }
